@@ -44,6 +44,15 @@ func genCase(r *core.Rng, thorough bool) *caseRec {
 			cs.Pool[r.Intn(12)] = must
 		}
 	}
+	// hash-collision partners: make sure both members of one or two colliding pairs are in the pool half of the time
+	if r.Bool() {
+		pairs := [][2]string{{"six", "denorm-bits-6"}, {"ten", "denorm-bits-10"}, {"two-pow-32", "denorm-bits-2pow32"}, {"objA", "int-equal-to-objA-address"}}
+		for n := r.Range(1, 2); n > 0; n-- {
+			pr := pairs[r.Intn(len(pairs))]
+			at := r.Intn(11)
+			cs.Pool[at], cs.Pool[at+1] = classIndex(pr[0]), classIndex(pr[1])
+		}
+	}
 	// no duplicates after replacement (a duplicate slot would only waste a slot, but keep the pool a set)
 	seen := map[int]bool{}
 	for i, c := range cs.Pool {
@@ -161,6 +170,9 @@ func genCase(r *core.Rng, thorough bool) *caseRec {
 			o = op{Op: "bulk", Kind: r.Intn(6)}
 		case 11:
 			o = op{Op: "export"}
+			if cs.isRaw() {
+				o = op{Op: "bulk", Kind: r.Intn(6)}
+			}
 		default:
 			o = op{Op: "walk"}
 		}
@@ -200,6 +212,15 @@ func genCase(r *core.Rng, thorough bool) *caseRec {
 		cs.Ops = append(cs.Ops, o)
 	}
 	return cs
+}
+
+func classIndex(name string) int {
+	for i := range catalogue {
+		if catalogue[i].name == name {
+			return i
+		}
+	}
+	panic("c18: no class " + name)
 }
 
 func genSym(r *core.Rng, cs *caseRec) {
